@@ -119,11 +119,18 @@ def labelsOf (evs : List Ev) (peer : String) (cfg : SessCfg) (conns : List ConnI
   let mut out : List (Nat × List Label) := []
   let mut stopSeen := false
   let mut doneSeen := false
+  let mut readdCalled := false
   for e in evs do
     if doneSeen then pure ()
     else if e.peer == peer then
       match e.ev with
       | "log.t" =>
+        -- (a peer that is being deleted and added again: the first FSM-start line after the re-add was called belongs
+        -- to the new instance — its manager may log it before either call's return is logged; the old instance has
+        -- stopped by then, since the key can only be added again after the old peer was stopped and removed)
+        if stopSeen && readdCalled && e.arg 1 == "disabled" && e.arg 2 != "disabled" then
+          doneSeen := true; out := out ++ [(e.seq, [.stopped])]
+        else
         match dirOfString (e.arg 0), stOfString (e.arg 1), stOfString (e.arg 2) with
         | some d, some a, some b => out := out ++ [(e.seq, [.logT d a b])]
         | _, _, _ => pure ()
@@ -154,9 +161,12 @@ def labelsOf (evs : List Ev) (peer : String) (cfg : SessCfg) (conns : List ConnI
       | "api.call" =>
         if e.arg 0 == "DeletePeer" && !stopSeen then
           stopSeen := true; out := out ++ [(e.seq, [.apiStop])]
+        if e.arg 0 == "AddPeer2" then readdCalled := true
       | "api.ret" =>
         -- (only the call that did stop the peer; what follows belongs to a new peer instance, if re-added)
         if e.arg 0 == "DeletePeer" && e.arg 1 == "ok" && !doneSeen then
+          doneSeen := true; out := out ++ [(e.seq, [.stopped])]
+        if (e.arg 0 == "AddPeer2" || e.arg 0 == "AddPeerN") && e.arg 1 == "ok" && stopSeen && !doneSeen then
           doneSeen := true; out := out ++ [(e.seq, [.stopped])]
       | _ => pure ()
     else if e.peer == "-" then
